@@ -273,15 +273,24 @@ impl Property for C04 {
         let src_addr_bytes = seeded_bytes(case.seed ^ 9, 20);
         let new_id = h32("c04-new-token", case.seed);
         let minter_addr = w.users[3].clone();
+        // metadata of a remotely deployed token: must arrive byte for byte
+        let (dname, dsymbol, ddec): (Vec<u8>, Vec<u8>, u32) = match case.seed % 7 {
+            0 | 1 => ("Remote Tøken".as_bytes().to_vec(), b"RMT".to_vec(), 9),
+            2 => (b"Pad\0\0".to_vec(), b"PD\0".to_vec(), 0),
+            3 => (b" Spaced ".to_vec(), b" S ".to_vec(), 255),
+            4 => (b"\0".to_vec(), b"\0".to_vec(), 18),
+            5 => (vec![b'n'; 200], vec![b's'; 40], 7),
+            _ => ("\u{feff}Bom\n".as_bytes().to_vec(), "\u{ff26}\u{ff37}".as_bytes().to_vec(), 1),
+        };
         let mut inner = match case.kind {
             Kind::TransferNative => AMsg::Transfer { token_id: t1_id, source: src_addr_bytes.clone(), dest: address_xdr(env, &recipient), amount: word_u128(amount as u128), data: vec![] },
             Kind::TransferCanonical => AMsg::Transfer { token_id: t2_id, source: src_addr_bytes.clone(), dest: address_xdr(env, &recipient), amount: word_u128(amount as u128), data: vec![] },
             Kind::TransferWithData => AMsg::Transfer { token_id: t1_id, source: src_addr_bytes.clone(), dest: address_xdr(env, &exec_id), amount: word_u128(amount as u128), data: data.clone() },
             Kind::Deploy { with_minter } => AMsg::Deploy {
                 token_id: new_id,
-                name: "Remote Tøken".as_bytes().to_vec(),
-                symbol: b"RMT".to_vec(),
-                decimals: word_u64(9),
+                name: dname.clone(),
+                symbol: dsymbol.clone(),
+                decimals: word_u64(ddec as u64),
                 minter: if with_minter { address_xdr(env, &minter_addr) } else { vec![] },
             },
         };
@@ -415,7 +424,7 @@ impl Property for C04 {
                     let addr = w.its.client.token_address(&BytesN::from_array(env, &new_id));
                     let t = w.token(&addr);
                     ensure_p!(t.token_id().to_array() == new_id, "deployed token reports another id");
-                    ensure_p!(sstring_to_vec(&t.name()) == "Remote Tøken".as_bytes() && sstring_to_vec(&t.symbol()) == b"RMT" && t.decimals() == 9, "deployed token metadata differs from the message");
+                    ensure_p!(sstring_to_vec(&t.name()) == dname && sstring_to_vec(&t.symbol()) == dsymbol && t.decimals() == ddec, "deployed token metadata differs from the message (name {:?})", String::from_utf8_lossy(&dname));
                     ensure_p!(t.owner() == w.its.id && t.is_minter(&w.its.id), "deployed token not owned / mintable by the service");
                     ensure_p!(t.is_minter(&minter_addr) == with_minter, "designated minter wrong");
                 }
